@@ -8,15 +8,17 @@ ebpps_sketch_impl.hpp / ebpps_sample_impl.hpp (all random draws supplied through
 the theorems below are about the `Rat` instance of the SAME definitions (exact arithmetic; binary64 rounding is not
 modelled).  Every statement is for every `k ≥ 1`, every finite stream of positive rational weights, every sequence of
 draws (`Draws`: the values returned by `next_double()` and by `random_idx`), and every model variant `v`
-(`Variant`: which of the three proposed repairs the current source contains; the pinned tree is `{}`).
+(`Variant`: which of the five proposed repairs the current source contains; the pinned tree is `{}`; the two binary64
+repairs are no-ops in exact arithmetic).
 
 Admissible unit draws (`UnitOK`): values of `next_double()` lie in `[0,1)`; for the PINNED code the theorems need the
 draw to be nonzero, `(0,1)`: a draw of exactly `0.0` loses the partial item (`eb_structure_full_false`).
 
 NOT formalised (DESIGN.md §5): "over the sampling randomness each item's inclusion probability is proportional to its
-weight" as a statement about the joint distribution of all draws.  Only the one-step identities are proved (`eb_one_step_pps_*`).
+weight" as a statement about the joint distribution of all draws.  Only the one-step identities are proved
+(`eb_one_step_pps_downsample`, `eb_one_step_pps_new_item`, `eb_one_step_pps_merge`).
 -/
-import DSProofs.Lemmas.EbppsPps
+import DSProofs.Lemmas.EbppsPpsDown
 namespace DS.Ebpps
 
 /-- the items offered by a stream -/
@@ -194,6 +196,24 @@ theorem eb_update_is_downsample_then_merge (v : Variant) (s : Sketch Rat) (item 
     rw [replaceContentV_eq_rat _ _ hth1]
   · unfold absorb
     simp only [rat_newRho, ← hr]
+
+/-- downsample half of the one-step PPS property: for the resident sample `s` and `0 < theta < 1` (`theta = rho'/rho`) there is
+a threshold `t ∈ [0,1]` for the unit draw — draws below `t` give the outcome `FA js`, draws above `t` give `FB js`
+(regions of lengths `t`, `1 - t`), `js` being the values of `random_idx`, independent and uniform with the bounds `bA`
+resp. `bB` (`expIdx`: exact average over all index vectors; the partial Fisher–Yates shuffle is proved uniform in
+`exp_count_subAt`) — and for EVERY item `x` the expected inclusion probability after the step is `theta · incl s x`:
+every resident item's inclusion probability is scaled by exactly `rho'/rho`.
+(`⟨[u], js⟩`: `downsample` consults one unit draw; further unit draws are left untouched.) -/
+theorem eb_one_step_pps_downsample (ge : Bool) (P : Nat → Prop) (s : Sample Rat) (hs : SInv P s) (hc : 0 < s.c)
+    (theta : Rat) (h0 : 0 < theta) (h1 : theta < 1) :
+    ∃ (t : Rat) (bA bB : List Nat) (FA FB : List Nat → Sample Rat), 0 ≤ t ∧ t ≤ 1 ∧
+      (∀ u js, u < t → (downsample ge s theta ⟨[u], js⟩).1 = FA js) ∧
+      (∀ u js, t < u → (downsample ge s theta ⟨[u], js⟩).1 = FB js) ∧
+      ∀ x, t * expIdx bA (fun js => incl (FA js) x) + (1 - t) * expIdx bB (fun js => incl (FB js) x) = theta * incl s x :=
+  downsample_pps hs hc h0 h1
+
+example : expIdx [2, 3] (fun js => (js.sum : Rat)) = 3 / 2 := by
+  simp [expIdx, avg, sumTo]; norm_num
 
 /-- merge half of the one-step PPS property: there is a threshold `t ∈ [0,1]` such that every draw below `t` produces the
 sample `A` and every draw above `t` produces `B` (regions of lengths `t` and `1 - t`), and for EVERY item `x`
